@@ -10,8 +10,8 @@
    The complement ("known bad") is explicit: [safe] (operator instances, Model/C01Safe.v) and [pos_ok] / [clean]
    (a None value tested for truth below a `not`); every disjunct has a refutation in Findings/C01.v / Findings/C02.v. *)
 Require Import PonyV.Base.PyBase PonyV.Model.C01Expr PonyV.Model.C01Sql PonyV.Model.C01Translate PonyV.Model.C01Safe
-               PonyV.Model.C01Eqb PonyV.Model.C01Query PonyV.Model.C01Like PonyV.Model.C01LikeEqb PonyV.Model.C01Join PonyV.Model.C01Coll PonyV.Model.C01Aggr PonyV.Model.C01Len
-               PonyV.Proofs.C01Ref PonyV.Proofs.C01Sound PonyV.Proofs.C01Rows PonyV.Proofs.C01Like PonyV.Proofs.C01Join PonyV.Proofs.C01Coll PonyV.Proofs.C01Aggr PonyV.Proofs.C01Len.
+               PonyV.Model.C01Eqb PonyV.Model.C01Query PonyV.Model.C01Like PonyV.Model.C01LikeEqb PonyV.Model.C01Join PonyV.Model.C01Coll PonyV.Model.C01Aggr PonyV.Model.C01Len PonyV.Model.C01Form
+               PonyV.Proofs.C01Ref PonyV.Proofs.C01Sound PonyV.Proofs.C01Rows PonyV.Proofs.C01Like PonyV.Proofs.C01Join PonyV.Proofs.C01Coll PonyV.Proofs.C01Aggr PonyV.Proofs.C01Len PonyV.Proofs.C01Form.
 
 (* WHERE keeps exactly the rows the Python condition keeps *)
 Theorem C01_filter_except_known : forall d, modelled d = true ->
@@ -191,19 +191,58 @@ Example C01_collection_nonvacuous :
   end /\ py_coll_rows (fun _ => PNone) db false atoms proj = [PInt 1].
 Proof. vm_compute. repeat split; reflexivity. Qed.
 
+(* Subquery conditions combined freely with and / or / not (Model/C01Form.v): the formula is any condition of the scalar grammar
+   over g's attributes whose leaves [ESub (40 + k)] are the k-th exists / in subquery and whose integer attributes 40 + k are the
+   k-th count subquery.  Every subquery has, as SQL value, the stored form of its Python value - three-valued for IN: a None
+   left operand or (for a non-matching search) nothing but the skipped None elements gives unknown / false exactly as
+   [in_coll] says - so the expression theorems apply to the formula with the subquery columns added to g's row ([senv] / [fenv]). *)
+Theorem C01_collection_subquery_value : forall d, modelled d = true ->
+  forall params db, pk_ok (tP db) = true ->
+  forall g s x, subq_typed s = true -> subq_dom d params db g s -> tr_subq d s = Some x ->
+  xval d params db g x = enc d (pyval params db g s).
+Proof. exact subq_sound. Qed.
+Print Assumptions C01_collection_subquery_value.
+
+Theorem C01_collection_formula_rows_except_known : forall d, modelled d = true ->
+  forall params db, pk_ok (tP db) = true ->
+  forall distinct subs filt proj vt xs conds q,
+  forallb subq_typed subs = true -> boolty filt = true -> ty_of proj = Some (TV vt) ->
+  tr_subqs d subs = Some xs -> tr_filter d filt = Some conds -> tr_project d proj = Some q ->
+  Forall (fgroup_ok d params db subs filt proj) (tG db) ->
+  sql_form_rows d params db distinct xs conds q = map (enc d) (py_form_rows params db distinct subs filt proj) /\
+  map (dec (TV vt)) (sql_form_rows d params db distinct xs conds q) = py_form_rows params db distinct subs filt proj.
+Proof. exact form_rows. Qed.
+Print Assumptions C01_collection_formula_rows_except_known.
+
+(* non-vacuity: not (level in (m.a ...) or not g.members) and count(...) < 2 or number == 0 - three groups, the collection of
+   the first holds a None *)
+Example C01_collection_formula_nonvacuous :
+  let a := mkattr 1 TInt true in let number := mkattr 11 TInt false in let level := mkattr 14 TInt true in
+  let subs := [SQIn (EAttr level) a (SGen None); SQExists None; SQCount None] in
+  let filt := EOr (EAnd (ENot (EOr (ESub 40) (ENot (ESub 41)))) (ECmp CLt (EAttr (mkattr 42 TInt false)) (EInt 2)))
+                  (ECmp CEq (EAttr number) (EInt 0)) in
+  let proj := EAttr (mkattr 10 TInt false) in
+  let mk (id : Z) (av grp : pyv) := row_of [(0, PInt id); (1, av); (8, grp); (3, PInt 0); (5, PStr [97%Z]); (7, PBool true)]%nat in
+  let db := mkjdb [mk 1 PNone (PInt 1); mk 2 (PInt 5) (PInt 2); mk 3 (PInt 7) (PInt 2)]
+                  [row_of [(0, PInt 1); (1, PInt 2); (4, PInt 3)]%nat; row_of [(0, PInt 2); (1, PInt 2); (4, PInt 3)]%nat;
+                   row_of [(0, PInt 3); (1, PInt 0); (4, PInt 3)]%nat] [] in
+  match tr_subqs DSqlite subs, tr_filter DSqlite filt, tr_project DSqlite proj with
+  | Some xs, Some conds, Some q => sql_form_rows DSqlite (fun _ => PNone) db false xs conds q = [IntV 1; IntV 3]
+  | _, _, _ => False
+  end /\ py_form_rows (fun _ => PNone) db false subs filt proj = [PInt 1; PInt 3].
+Proof. vm_compute. split; reflexivity. Qed.
+
 (* len(g.members) / count(g.members) in a condition (Model/C01Len.v): the translator's "optimize" path -
    SELECT .. FROM G g LEFT JOIN P p ON g.id = p.group WHERE <w> GROUP BY g.id HAVING <h>, the conditions h mentioning
    COUNT(DISTINCT p.id).  [sql_len_rows]: LEFT JOIN rows, WHERE per joined row, groups by the value of g.id, COUNT(DISTINCT)
    per group, HAVING per group; [py_len_rows]: the comprehension with len = the number of P objects whose group is g.
-   ws: conditions over g's own columns; hs: conditions that mention the count and keep the translator's `aggregated` mark
-   (conditions proper, or string / bool values tested for truth).  Known bad ([tr_len] = None: the statement has the aggregate
-   in WHERE and every database rejects it): an integer value tested for truth, `if len(g.members)`, `if coalesce(g.level,
-   count(g.members))` - finding aggregate-truth-test-lands-in-where. *)
+   ws: conditions over g's own columns; hs: the conditions (or values tested for truth) that mention the count.  Nothing specific is
+   excluded: the defect aggregate-truth-test-lands-in-where found with this model (`if len(g.members)` put the aggregate into
+   WHERE) was repaired in repo commit 809623a. *)
 Theorem C01_collection_len_rows_except_known : forall d, modelled d = true ->
   forall params db, pk_ok (tP db) = true -> keys_ok (map (fun g : row => g 0%nat) (tG db)) = true ->
   forall ws hs proj vt w h q,
-  forallb boolty (ws ++ hs) = true -> forallb g_only ws = true -> forallb (fun e => negb (loses_mark e)) hs = true ->
-  ty_of proj = Some (TV vt) ->
+  forallb boolty (ws ++ hs) = true -> forallb g_only ws = true -> ty_of proj = Some (TV vt) ->
   tr_len d ws hs = Some (sub_join, w, h) -> tr_project d proj = Some q ->
   Forall (len_ok d params db ws hs proj) (tG db) ->
   sql_len_rows d params db w h q = map (enc d) (py_len_rows params db ws hs proj) /\
@@ -233,8 +272,8 @@ Proof. vm_compute. split; reflexivity. Qed.
    [py_aggr] Pony's documented aggregate over the comprehension (None skipped, sum of nothing 0, min / max / avg of nothing None,
    count(e) = number of different non-None values; the average as the exact quotient), [deca_g] the converter of the result type.
    Domain: every row in the domain of the expression theorems for c and e, distinct integer primary keys (count(p));
-   known bad ([aggr_safe]): sum of a boolean expression (finding sum-of-booleans-is-returned-as-bool; PostgreSQL has no
-   sum / avg of a boolean at all: C02). *)
+   known bad ([aggr_safe]): PostgreSQL has no sum / avg of a boolean (C02 finding postgres-sum-avg-of-boolean); the defect
+   sum-of-booleans-is-returned-as-bool found with this model was repaired in repo commit ebd2f10. *)
 Theorem C01_aggregate_except_known : forall d, modelled d = true ->
   forall table filt g conds qa,
   filt_typed filt = true -> tr_where d filt = Some conds -> tr_aggr d 0%nat g = Some qa ->
